@@ -12,6 +12,7 @@ import (
 	"verifharness/drive"
 	"verifharness/gen"
 	"verifharness/spec"
+	"verifharness/stats"
 )
 
 // C14 — vector search returns true scores of live documents, exactly top-k when exact.
@@ -468,3 +469,16 @@ var c14 = Check[vecCase]{
 func init() { c14.register() }
 
 func TestC14(t *testing.T) { c14.Rapid(t) }
+
+// Deterministic case: 150000 documents that all carry the SAME vector. Whatever a build derives
+// vector ids from, identical vectors must still be told apart: every one of them is in the index
+// and counted (D9: ids with a random 31-bit half collided with probability ~ m^2 / 2^32).
+func TestC14Identical(t *testing.T) {
+	col := stats.New("C14", "vector-search")
+	defer col.Write()
+	n := 150000
+	c := vecCase{Batch: &spec.BatchSpec{VecWide: &spec.VecWideSpec{N: n, Field: "vec", Dim: 2, Metric: "l2_norm", Opt: "recall", Same: true}}}
+	c.Queries = []vecQuery{{Field: "vec", Q: []float32{1, 0}, K: 5, Except: spec.DropSpec{Nil: true}}}
+	col.CaseHash(stats.HashJSON("fixed-identical-vectors"), true, []string{"clustered-index", "150000-identical-vectors"}, func() any { return sampleOf(c) })
+	reportBig(t, col, "C14", "vector-search", c, safeRun(c14, c))
+}
